@@ -124,6 +124,8 @@ def value_json(t, v, mode='readable'):
             return {'prim': 'Lambda_rec', 'args': [[instr_json(i) for i in v[1]]]}
         return [instr_json(i) for i in v[1]]
     if k == 'address':
+        if mode != 'readable':      # optimized forms: the 22 address bytes followed by the entrypoint name
+            return {'bytes': (bytes(v[1]) + bytes(v[2])).hex()}
         s = b58.address_from_bytes(v[1])
         ep = bytes(v[2]).decode()
         return {'string': s + ('%' + ep if ep else '')}
